@@ -119,7 +119,7 @@ def scenarios(rng, n, tier):
             used.add(T)
             jobs.append({
                 "call": call, "T": T, "kind": rng.choice(KINDS), "alias": rng.choice(ALIASES),
-                "w": rng.choice([1, 0, 2, 0.5, 1 / 3, 1e-9, 1e15, -2.5, 123456789, 3.14159265]),
+                "w": rng.choice([1, 0, 2, 0.5, 1 / 3, 1e-9, 1e15, -2.5, 123456789, 3.14159265, float("inf"), float("-inf"), float("nan"), 1e308, 5e-324]),
                 "max_att": rng.choice([0, 0, 1, 2, 10**6, 10**12]),
                 "back": rng.random() < 0.3,
             })
